@@ -4,15 +4,15 @@
 # runs the demonstration on the unchanged and on the changed build, then runs the named checks against the copy.
 set -u
 S=/verif/seeded/$1; DEMO=$2; shift 2; [ "$1" = "--" ] && shift
-D=/tmp/gufo-mut
+D=${MUT_DIR:-/tmp/gufo-mut}; LOG=$(mktemp -d)
 rm -rf $D; rsync -a --exclude target --exclude .git /repo/ $D/
-trap "rm -rf $D" EXIT
+trap "rm -rf $D $LOG" EXIT
 (cd $D && patch -p1 -s < $S/patch.diff) || { echo "PATCH DOES NOT APPLY"; exit 3; }
-echo "== unit tests on changed tree"; (cd $D && CARGO_NET_OFFLINE=true CARGO_TARGET_DIR=/verif/.build/mut-test-target cargo test --offline 2>&1 | grep -E "^test result|FAILED|^error" | head -5)
+echo "== unit tests on changed tree"; (cd $D && CARGO_NET_OFFLINE=true CARGO_TARGET_DIR=${MUT_TEST_TARGET:-/verif/.build/mut-test-target} cargo test --offline 2>&1 | grep -E "^test result|FAILED|^error" | head -5)
 PKG0=$(cd /verif/py && python3-vt -c "from vlib import build; print(build.ensure_ext())" 2>/dev/null)
 PKG1=$(cd /verif/py && VERIF_REPO=$D python3-vt -c "from vlib import build; print(build.ensure_ext())" 2>/dev/null)
-echo "== demo on unchanged tree ($PKG0)"; (cd $S && PYTHONPATH=$PKG0 timeout 300 python3 $DEMO >/tmp/demo0.log 2>&1; echo "exit=$?"; tail -3 /tmp/demo0.log)
-echo "== demo on changed tree ($PKG1)"; (cd $S && PYTHONPATH=$PKG1 timeout 300 python3 $DEMO >/tmp/demo1.log 2>&1; echo "exit=$?"; tail -3 /tmp/demo1.log)
+echo "== demo on unchanged tree ($PKG0)"; (cd $S && PYTHONPATH=$PKG0 timeout 300 python3 $DEMO >$LOG/demo0.log 2>&1; echo "exit=$?"; tail -3 $LOG/demo0.log)
+echo "== demo on changed tree ($PKG1)"; (cd $S && PYTHONPATH=$PKG1 timeout 300 python3 $DEMO >$LOG/demo1.log 2>&1; echo "exit=$?"; tail -3 $LOG/demo1.log)
 for id in "$@"; do
   echo "== check $id on changed tree"
   VERIF_REPO=$D /verif/check $id ${MUT_TIER:+--tier $MUT_TIER} 2>&1 | grep -E "VIOLATION|signature|KNOWN|held|VIOLATED|INCONCLUSIVE" | cut -c1-300 | head -6
